@@ -10,6 +10,7 @@ Byte strings are hex ("-" = empty).  See vlib/harness.py for the Python side.
 */
 
 #include <ctype.h>
+#include <dirent.h>
 #include <errno.h>
 #include <fcntl.h>
 #include <inttypes.h>
@@ -998,12 +999,58 @@ emit:
 
 static char current_case[256];
 
+static int cfg_dirty = 0;
+static int fds_at_begin = -1;
+static char fsbox[700];
+
+/* number of open descriptors of this process (the DIR used for counting is open in both measurements) */
+static int count_fds(void)
+{
+  int n = 0;
+  DIR* d = opendir("/proc/self/fd");
+  if (!d)
+    return -1;
+  while (readdir(d) != NULL) n++;
+  closedir(d);
+  return n;
+}
+
+static void rm_rf(const char* path)
+{
+  DIR* d = opendir(path);
+  if (d)
+  {
+    struct dirent* e;
+    while ((e = readdir(d)) != NULL)
+    {
+      if (strcmp(e->d_name, ".") == 0 || strcmp(e->d_name, "..") == 0)
+        continue;
+      char sub[1400];
+      snprintf(sub, sizeof(sub), "%s/%s", path, e->d_name);
+      rm_rf(sub);
+    }
+    closedir(d);
+    rmdir(path);
+  }
+  else
+    unlink(path);
+}
+
 static int end_case(void)
 {
   int leak = 0;
   if (current_case[0])
   {
     free_all();
+    if (fsbox[0])
+    {
+      if (chdir(workdir) != 0) die("chdir workdir");
+      rm_rf(fsbox);
+      fsbox[0] = 0;
+    }
+    int fds_now = count_fds();
+    if (fds_at_begin >= 0 && fds_now != fds_at_begin)
+      fprintf(out, "{\"op\":\"fds\",\"begin\":%d,\"end\":%d}\n", fds_at_begin, fds_now);
 #if HAVE_LSAN
     if (getenv("YRH_NO_LEAKCHECK") == NULL)
       leak = __lsan_do_recoverable_leak_check();
@@ -1036,6 +1083,15 @@ static int exec_line(char* line)
     if (end_case())
       return 1;
     snprintf(current_case, sizeof(current_case), "%s", ntk > 1 ? tk[1] : "?");
+    if (cfg_dirty)
+    {
+      /* configuration is process-global: a case never inherits what an earlier case of the batch set */
+      yr_set_configuration_uint32(YR_CONFIG_STACK_SIZE, DEFAULT_STACK_SIZE);
+      yr_set_configuration_uint32(YR_CONFIG_MAX_STRINGS_PER_RULE, DEFAULT_MAX_STRINGS_PER_RULE);
+      yr_set_configuration_uint32(YR_CONFIG_MAX_MATCH_DATA, DEFAULT_MAX_MATCH_DATA);
+      cfg_dirty = 0;
+    }
+    fds_at_begin = count_fds();
     fprintf(out, "BEGIN %s\n", current_case);
     fflush(out);
   }
@@ -1068,6 +1124,7 @@ static int exec_line(char* line)
     else
       die("cfg name");
     uint32_t v = (uint32_t) strtoul(tk[2], NULL, 0);
+    cfg_dirty = 1;
     API(rc = yr_set_configuration_uint32((YR_CONFIG_NAME) name, v));
     fprintf(out, "{\"op\":\"cfg\",\"rc\":%d}\n", rc);
   }
@@ -1089,15 +1146,42 @@ static int exec_line(char* line)
     if (rc == ERROR_SUCCESS)
     {
       yr_compiler_set_callback(comps[c], compiler_cb, NULL);
-      yr_compiler_set_include_callback(comps[c], include_cb, include_free, NULL);
+      // "cnew <c> fs": keep the library's default (file system) include callback
+      if (!(ntk > 2 && strcmp(tk[2], "fs") == 0))
+        yr_compiler_set_include_callback(comps[c], include_cb, include_free, NULL);
     }
     else
       comps[c] = NULL;
     fprintf(out, "{\"op\":\"cnew\",\"rc\":%d}\n", rc);
   }
+  else if (strcmp(op, "fsbox") == 0)
+  {
+    // private directory for this case; becomes the working directory (relative includes resolve here)
+    snprintf(fsbox, sizeof(fsbox), "%s/box%d", workdir, (int) getpid());
+    rm_rf(fsbox);
+    if (mkdir(fsbox, 0700) != 0 || chdir(fsbox) != 0) die("fsbox");
+  }
+  else if (strcmp(op, "mkfile") == 0 || strcmp(op, "mkdirp") == 0)
+  {
+    if (!fsbox[0]) die("mkfile outside fsbox");
+    BYTES nm = unhex(tk[1]);
+    if (strstr((char*) nm.p, "..") || nm.p[0] == '/') die("mkfile name");
+    if (strcmp(op, "mkdirp") == 0)
+      mkdir((char*) nm.p, 0700);
+    else
+    {
+      BYTES content = unhex(tk[2]);
+      FILE* f = fopen((char*) nm.p, "wb");
+      if (!f) die("mkfile open");
+      fwrite(content.p, 1, content.n, f);
+      fclose(f);
+      free(content.p);
+    }
+    free(nm.p);
+  }
   else if (strcmp(op, "cfileinc") == 0)
   {
-    // switch compiler <c> back to the default (file system) include callback
+    // disable includes for compiler <c> (what the API does for a NULL callback)
     int c = slot(tk[1], NCOMP);
     yr_compiler_set_include_callback(comps[c], NULL, NULL, NULL);
   }
